@@ -259,7 +259,7 @@ def abortRes : Op → Res
   | _ => .ok
 
 /-- `handle_enable()` / `handle_disable()` of the driver has returned or raised: on an exception `enable()` /
-`disable()` put `_enabled` back and the API call fails (PortError -> 502). -/
+`disable()` put `_enabled` back and the API call fails. -/
 def hookDone (s : St) (opId : Nat) (on : Bool) : St :=
   if (if on then s.enRaise else s.disRaise) then
     { s with port := { s.port with enabled := !on } }.emit (.ret s.now opId (.refused .portError))
